@@ -165,74 +165,7 @@ func c13(r *core.Report) {
 
 	// ---- C13-COMMIT
 	r.Rule("C13-COMMIT", "Deliver: one blocking select; rendezvous send is followed on every path by the completion wait and a nil error; nil error on no other path", 8)
-	for _, d := range []struct {
-		name      string
-		rdv, done *types.Var
-	}{{"TellHub.Deliver", h.tellDelivers, h.drDone}, {"AskHub.Deliver", h.askReqs, h.srDone}} {
-		fn := h.fns[d.name]
-		var sels []*ssa.Select
-		for _, s := range core.AllSelects(fn) {
-			if s.Blocking {
-				sels = append(sels, s)
-			}
-		}
-		c := core.FnName(fn)
-		if len(sels) != 1 {
-			r.Violation("C13-COMMIT", c+" select count", p.Pos(fn.Pos()), fmt.Sprintf("expected exactly one blocking select, found %d", len(sels)))
-			continue
-		}
-		sel := sels[0]
-		sendIdx := -1
-		for i, st := range sel.States {
-			cr := core.ClassifyChan(st.Chan)
-			if st.Dir == types.SendOnly && cr.Kind == "field" && core.SameField(cr.Field, d.rdv) {
-				sendIdx = i
-			}
-		}
-		if sendIdx < 0 {
-			r.Violation("C13-COMMIT", c+" rendezvous send", p.Pos(sel.Pos()), "no send case on the rendezvous channel")
-			continue
-		}
-		blk := core.SelectCaseBlock(sel, sendIdx)
-		if blk == nil {
-			r.Undecided("C13-COMMIT", c+" rendezvous send", p.Pos(sel.Pos()), "cannot locate the send case block")
-			continue
-		}
-		isDoneWait := func(in ssa.Instruction) bool {
-			u, ok := in.(*ssa.UnOp)
-			if !ok || u.Op != token.ARROW {
-				return false
-			}
-			cr := core.ClassifyChan(u.X)
-			return cr.Kind == "field" && core.SameField(cr.Field, d.done)
-		}
-		first := blk.Instrs[0]
-		waits := mustPassAt(fn, first, isDoneWait)
-		r.Check(waits, "C13-COMMIT", c+" commit wait", p.Pos(first.Pos()), "every path after the rendezvous send waits for the completion signal", "after a receiver took the request some path returns without waiting for the callback to finish: the caller may reuse the buffer while the callback reads it")
-		// the wait must be unconditional: it is not a select
-		fromSend := core.ReachAt(fn, first, nil, nil)
-		for _, ret := range core.Returns(fn) {
-			ei := len(ret.Results) - 1
-			vals := core.ReturnValues(ret, ei)
-			allNil := true
-			for _, v := range vals {
-				if !core.IsNilConst(v) {
-					allNil = false
-				}
-			}
-			if fromSend[ret] {
-				r.Check(allNil, "C13-COMMIT", c+" success return", p.Pos(ret.Pos()), "returns a nil error after the callback completed", "returns an error although a receiver saw the message")
-			} else {
-				anyNil := false
-				for _, v := range vals {
-					if core.IsNilConst(v) {
-						anyNil = true
-					}
-				}
-				r.Check(!anyNil, "C13-COMMIT", c+" failure return", p.Pos(ret.Pos()), "a path on which no receiver took the request does not return a constant nil error", "returns success although no receiver ever saw the message")
-			}
-		}
-	}
+	ruleCommit(r, h, "C13-COMMIT")
 
 	// ---- C13-DONE-AFTER-CALLBACK
 	r.Rule("C13-DONE-AFTER-CALLBACK", "after the rendezvous receive every path calls the callback once and signals completion after it", 9)
@@ -509,6 +442,82 @@ func ruleCtxExternal(r *core.Report, ruleID string, roots []*ssa.Function) {
 				case "join":
 					r.Trivial(ruleID, c, pos, "joins goroutines whose own blocking calls are checked separately")
 				}
+			}
+		}
+	}
+
+}
+
+// ruleCommit: shape of TellHub.Deliver / AskHub.Deliver (shared by C13 and C14:
+// the deliverer may reuse its buffer only because Deliver returns success
+// strictly after the callback finished).
+func ruleCommit(r *core.Report, h *hubSlots, ruleID string) {
+	p := r.P
+	for _, d := range []struct {
+		name      string
+		rdv, done *types.Var
+	}{{"TellHub.Deliver", h.tellDelivers, h.drDone}, {"AskHub.Deliver", h.askReqs, h.srDone}} {
+		fn := h.fns[d.name]
+		var sels []*ssa.Select
+		for _, s := range core.AllSelects(fn) {
+			if s.Blocking {
+				sels = append(sels, s)
+			}
+		}
+		c := core.FnName(fn)
+		if len(sels) != 1 {
+			r.Violation(ruleID, c+" select count", p.Pos(fn.Pos()), fmt.Sprintf("expected exactly one blocking select, found %d", len(sels)))
+			continue
+		}
+		sel := sels[0]
+		sendIdx := -1
+		for i, st := range sel.States {
+			cr := core.ClassifyChan(st.Chan)
+			if st.Dir == types.SendOnly && cr.Kind == "field" && core.SameField(cr.Field, d.rdv) {
+				sendIdx = i
+			}
+		}
+		if sendIdx < 0 {
+			r.Violation(ruleID, c+" rendezvous send", p.Pos(sel.Pos()), "no send case on the rendezvous channel")
+			continue
+		}
+		blk := core.SelectCaseBlock(sel, sendIdx)
+		if blk == nil {
+			r.Undecided(ruleID, c+" rendezvous send", p.Pos(sel.Pos()), "cannot locate the send case block")
+			continue
+		}
+		isDoneWait := func(in ssa.Instruction) bool {
+			u, ok := in.(*ssa.UnOp)
+			if !ok || u.Op != token.ARROW {
+				return false
+			}
+			cr := core.ClassifyChan(u.X)
+			return cr.Kind == "field" && core.SameField(cr.Field, d.done)
+		}
+		first := blk.Instrs[0]
+		waits := mustPassAt(fn, first, isDoneWait)
+		r.Check(waits, ruleID, c+" commit wait", p.Pos(first.Pos()), "every path after the rendezvous send waits for the completion signal", "after a receiver took the request some path returns without waiting for the callback to finish: the caller may reuse the buffer while the callback reads it")
+		// the wait must be unconditional: it is not a select
+		fromSend := core.ReachAt(fn, first, nil, nil)
+		for _, ret := range core.Returns(fn) {
+			ei := len(ret.Results) - 1
+			vals := core.ReturnValues(ret, ei)
+			allNil := true
+			for _, v := range vals {
+				if !core.IsNilConst(v) {
+					allNil = false
+				}
+			}
+			if fromSend[ret] {
+				r.Check(allNil, ruleID, c+" success return", p.Pos(ret.Pos()), "returns a nil error after the callback completed", "returns an error although a receiver saw the message")
+			} else {
+				anyNil := false
+				for _, v := range vals {
+					if core.IsNilConst(v) {
+						anyNil = true
+					}
+				}
+				r.Check(!anyNil, ruleID, c+" failure return", p.Pos(ret.Pos()), "a path on which no receiver took the request does not return a constant nil error", "returns success although no receiver ever saw the message")
 			}
 		}
 	}
